@@ -3,7 +3,8 @@
 
 (a) every numeric kernel closure of data_type/function.rs, translated from the MIR of the current tree:
     the panic condition (division by zero, overflow asserts, clamp(min>max), unwrap) is unsatisfiable, and no finite
-    input yields a NaN (a NaN corner reaches `assert!(min <= max)` when the image interval is built);
+    input yields a NaN (a NaN corner reaches `assert!(min <= max)` when the image interval is built) or +-inf (libm calls
+    are uninterpreted but constrained by their IEEE boundary facts: log(0) = -inf, log(x > 0) finite, exp >= 0, |sin|,|cos| <= 1);
 (b) the size arithmetic of Map / Reduce / Join / Set, translated from MIR with the inputs' sizes havocked under the
     invariant 0 <= max (inductive step over relation trees): no overflow assert, no `from_interval(min > max)`;
     the invariant is re-established;
@@ -147,6 +148,25 @@ def main():
             for rk, rp in regions:
                 add("a/nan/%s/%s" % (name, rk), decls, ["(fp.isNaN %s)" % inst["val"].t, rp] + fin, argn, dict(info, kind="nan", region=rk))
             add("a/nan/%s/other" % name, decls, ["(fp.isNaN %s)" % inst["val"].t] + [lnot(rp) for _, rp in regions] + fin, argn, dict(info, kind="nan", region="other"))
+        # no finite argument yields +-inf: the kernels clamp to [f64::MIN, f64::MAX] so that images stay inside the float type
+        # (an infinite image bound makes later arithmetic refuse its domain and fall back to panicking paths). libm calls
+        # are uninterpreted; what the solver is told about them are IEEE / libm facts at the boundary of their domain.
+        if k.ret_ty == "f64" and fname is not None:
+            ax = []
+            val_t = inst["val"].t
+            for m_ in set(re.findall(r"\((uf_\w+) ([^()\s]+|\([^()]*\))(?: ([^()\s]+|\([^()]*\)))?\)", val_t)):
+                uf, a_, b_ = m_
+                app = "(%s %s%s)" % (uf, a_, (" " + b_) if b_ else "")
+                fin_a = finite(a_)
+                if uf in ("uf_ln", "uf_log", "uf_log10", "uf_log2"):
+                    ax += ["(=> (fp.isZero %s) (and (fp.isInfinite %s) (fp.isNegative %s)))" % (a_, app, app),
+                           "(=> (and %s (fp.gt %s %s)) %s)" % (fin_a, a_, fp_lit(0.0), finite(app)),
+                           "(=> (fp.lt %s %s) (fp.isNaN %s))" % (a_, fp_lit(0.0), app)]
+                elif uf == "uf_exp":
+                    ax += ["(=> %s (and (not (fp.isNaN %s)) (fp.geq %s %s)))" % (fin_a, app, app, fp_lit(0.0))]
+                elif uf in ("uf_sin", "uf_cos"):
+                    ax += ["(=> %s (and (fp.geq %s %s) (fp.leq %s %s)))" % (fin_a, app, fp_lit(-1.0), app, fp_lit(1.0))]
+            add("a/inf/%s" % name, decls, ["(fp.isInfinite %s)" % val_t] + fin + ax, argn, dict(info, kind="inf", region="finite-argument"))
     ck.note("(a) %d numeric kernels in function.rs, %d translated, %d not translatable, %d internal helper closures skipped" % (len(knames), len(K), len(nt), len(helpers)))
 
     # ------------------------------------------------------------------ (b) size arithmetic
@@ -318,6 +338,21 @@ def main():
             where = [w for w, x in (("value", rv), ("super_image", ri)) if "panic" in x]
             region = info["region"]
             key = "kernel=%s/%s/%s" % (f, info["kind"], region)
+            if info["kind"] == "inf":
+                js = json.dumps([rv.get("ok"), ri.get("ok")])
+                is_inf = ("0x7ff0000000000000" in js) or ("0xfff0000000000000" in js) or ("inf" in (rv.get("s") or "") + (ri.get("s") or ""))
+                if where:
+                    confirmed += 1
+                    ck.violation("kernel=%s/panic/non-finite-intermediate" % f, "%s(%s) panics in %s: %s (an intermediate of the kernel overflows to +-inf)" % (f, ", ".join(map(str, shown)), "+".join(where), (rv.get("panic") or ri.get("panic"))),
+                                 dict(query=r["id"], args=shown, value=rv, super_image=ri))
+                elif is_inf:
+                    confirmed += 1
+                    ck.violation(key, "%s(%s) is infinite: value %s, image of the singleton type %s - outside the float type [f64::MIN, f64::MAX] the kernels are meant to stay in" % (
+                        f, ", ".join(map(str, shown)), rv.get("s") or json.dumps(rv)[:80], ri.get("s") or json.dumps(ri)[:80]), dict(query=r["id"], args=shown, value=rv, super_image=ri))
+                else:
+                    benign += 1
+                    ck.note("kernel %s: the solver's infinite result at %s does not show through the public API (value=%s image=%s)" % (info["kernel"], shown, json.dumps(rv)[:100], json.dumps(ri)[:100]))
+                continue
             if where:
                 confirmed += 1
                 ck.violation(key, "%s(%s) panics in %s: %s" % (f, ", ".join(map(str, shown)), "+".join(where), (rv.get("panic") or ri.get("panic"))),
